@@ -128,6 +128,29 @@ def intStrDigit2 (z : Float) : Float := ofIntStr (((toIntStr z).drop 2).take 1).
 /-- `lst[i]` with an integer-valued double index (no negative indices in the modelled code) -/
 def listGet (l : List Float) (i : Float) : Float := l.getD i.toUInt64.toNat (0.0 / 0.0)
 
+/-- `(a - b).days` for dates; `b = 0` (an int, not a date) raises TypeError in Python -> NaN -/
+def dateDiffDays (a : Int × Int × Int) (b : Option (Int × Int × Int)) : Float :=
+  match b with
+  | some b => Float.ofInt (dateDays a - dateDays b)
+  | none => 0.0 / 0.0
+/-- `isinstance(x, int)` for a number that travelled as a double: integral value -/
+def isInt (x : Float) : Prop := (x == Float.floor x) = true
+instance (x : Float) : Decidable (isInt x) := inferInstanceAs (Decidable ((x == Float.floor x) = true))
+
+/-- `geodepy.angles.hp2dec` on a float (used by `transform.conform7` for the arc-second -> degree
+step): the 13-decimal expansion of the double is sliced into DDD.MMSSsssssssss -/
+def hp2dec (hp : Float) : Except PyErr Float :=
+  let N := (scaledRound 13 hp).natAbs
+  let deg := N / 10 ^ 13
+  let frac := N % 10 ^ 13
+  if frac / 10 ^ 12 > 5 then .error .ValueError
+  else if (frac / 10 ^ 10) % 10 > 5 then .error .ValueError
+  else
+    let mn := frac / 10 ^ 11
+    let sec := ofRatNat (frac % 10 ^ 11) (10 ^ 9)
+    let d := sec / 3600 + Float.ofNat mn / 60 + Float.ofNat deg
+    .ok (if hp ≥ 0 then d else -d)
+
 def hex (x : Float) : String :=
   let b := x.toBits.toNat
   let ds := (Nat.toDigits 16 b)
